@@ -74,16 +74,18 @@ Proof. vm_compute. reflexivity. Qed.
 (* ---- back end: compile correctness on the models that are compared with the implementation on every run ----
 
    Fragment (model/ScalarFrag.v, model/VarProg.v): programs over top-level variables - any number of declarations
-   `x := e`, assignments `x = e`, expression statements and conditionals `if c { ... } else { ... }` whose branches
-   are lists of assignments and expression statements -, whose expressions are built from integer /
-   boolean / nil literals, variables declared earlier, prefix - and !, the arithmetic and comparison operators,
-   short-circuit && and ||, and the conditional, at any nesting.  For the fragment, the emitted code ([cexp], [pcode])
-   and the source-level result ([sev], [run_stmts]) are pure functions, and:
+   `x := e`, assignments `x = e`, expression statements, conditionals `if c { ... } else { ... }` and condition loops
+   `for c { ... }` whose blocks are again lists of assignments, expression statements, conditionals and loops, nested
+   to any depth -, whose expressions are built from integer / boolean / nil / string literals, variables declared
+   earlier, prefix - and !, the arithmetic and comparison operators (on integers and strings), short-circuit && and
+   ||, and the conditional, at any nesting.  For the fragment, the emitted code ([cexp], [pcode]) and the source-level
+   result ([sev], [run_stmts]) are pure functions; loops make the latter a fuelled function (None = not enough fuel;
+   a program that ends does so for some fuel), and:
 
-   (1) the compiler model emits exactly that code (jump distances, global slots and constants included),
+   (1) the compiler model emits exactly that code (jump distances - forward and backward -, global slots, constants),
    (2) the reference semantics Sem computes exactly that result,
    (3) the VM model running that code computes exactly that result,
-   hence (4) compile_program followed by VM.run agrees with Sem.run on every program of the fragment. *)
+   hence (4) compile_program followed by VM.run agrees with Sem.run on every program of the fragment that ends. *)
 From Coq Require Import NArith ZArith.
 Require Import RV.model.Syntax RV.model.Compiler RV.model.ScalarFrag RV.model.VarProg RV.proofs.BackendProofs.
 Local Open Scope nat_scope.
@@ -102,13 +104,13 @@ Example C01_back_compile_example :
    opCompareOp; cLessThan; opCopy; 0; opPopJumpForwardIfFalse; 7; opNil; opUnaryNot; opBinaryOp; bAnd; opNop]%N.
 Proof. vm_compute. reflexivity. Qed.
 
-(* (1) whole programs *)
+(* (1) whole programs: the code object is exactly [pcode]; the symbol tables that come with it (one block table per
+   branch, loop and loop body) are characterised by an invariant in proofs/VarCompileProofs.v and play no role at run time *)
 Require Import RV.proofs.VarCompileProofs.
 Theorem C01_back_compile_program : forall names, NoDup names -> forall l f,
-  l <> nil -> ndecls l <= List.length names -> wf_stmts 0 l = true -> max_height l <= f ->
-  compile_program (S f) nil (embed_stmts names 0 l) =
-  inr (Code main_id main_id false 0 (fst (pcode 0 0 l)) (snd (pcode 0 0 l)) nil nil nil,
-       (root_tb names (ndecls l) (nblocks l) :: blocks (nblocks l))%list).
+  l <> nil -> ndecls l <= List.length names -> wf_stmts true 0 l = true -> max_height l <= f ->
+  exists tabs, compile_program (S f) nil (embed_stmts names 0 l) =
+               inr (Code main_id main_id false 0 (fst (pcode 0 0 l)) (snd (pcode 0 0 l)) nil nil nil, tabs).
 Proof. exact compile_var_program. Qed.
 
 (* (2) expressions: [env_ok] says that the environment binds the variables and the store holds their values rho *)
@@ -118,11 +120,12 @@ Theorem C01_back_sem_scalar : forall names rho x f e s,
   Sem.eval f e s (ScalarFrag.embed names x) = (lift (ScalarFrag.sev rho x), e, s).
 Proof. exact sem_scalar. Qed.
 
-(* (2) whole programs *)
+(* (2) whole programs: whenever the source-level run ends with fuel n, Sem.run with any larger fuel gives its result *)
 Require Import RV.proofs.VarSemProofs.
-Theorem C01_back_sem_program : forall names, NoDup names -> Forall (fun nm => nm <> nil) names -> forall l f,
-  wf_stmts 0 l = true -> (ndecls l <= List.length names)%nat -> (max_height l <= f)%nat ->
-  fst (Sem.run (S f) (embed_stmts names 0 l)) = lift (run_stmts nil l ScalarFrag.VNil).
+Theorem C01_back_sem_program : forall names, NoDup names -> Forall (fun nm => nm <> nil) names -> forall l n f r,
+  wf_stmts true 0 l = true -> (ndecls l <= List.length names)%nat -> (max_height l <= f)%nat -> (n <= f)%nat ->
+  run_stmts n nil l ScalarFrag.VNil = Some r ->
+  fst (Sem.run (S f) (embed_stmts names 0 l)) = lift_top r.
 Proof. exact sem_var_program. Qed.
 
 (* (3) expressions: inside ANY code object, at ANY position, under ANY stack with room for it; [globals_ok s rho] says
@@ -144,32 +147,92 @@ Theorem C01_back_vm_scalar :
     end.
 Proof. exact vm_scalar. Qed.
 
-(* (4) Assembled.  [agree] relates an outcome of Sem with a result of the VM: the same scalar, or the same error class.
-   The hypotheses are the fragment's side conditions: variables are used after their declaration (wf_stmts), there are
-   enough distinct, non-empty names, every expression fits the VM's 1024 operand slots (the bound is real: deeper
-   operand nesting overflows the implementation's stack as well), and the VM has a global slot for every variable.
+(* (3) whole programs: VM.run on the code object [pcode], with at least one global slot per variable and whatever
+   symbol tables, returns the value / stops with the error class of the source-level run; k + 1 = instructions executed *)
+Require Import RV.proofs.EndToEndVars.
+Theorem C01_back_vm_program : forall l tabs ng n r,
+  l <> nil -> wf_stmts true 0 l = true -> (ndecls l <= ng)%nat -> (max_need l <= MAXSTACK)%nat ->
+  run_stmts n nil l ScalarFrag.VNil = Some r ->
+  exists k s', forall f,
+    VM.run (k + S f) (Code main_id main_id false 0 (fst (pcode 0 0 l)) (snd (pcode 0 0 l)) nil nil nil) tabs ng nil =
+    match top_result r with
+    | inl v => RVal (VMScalarProofs.inj v) s'
+    | inr x => RErr (cls x) s'
+    end.
+Proof. exact run_var_program. Qed.
+
+(* (4) Assembled.  [agree_on x] relates an outcome of Sem and a result of the VM with the source-level outcome x: the
+   same scalar, or the same error class.  The hypotheses are the fragment's side conditions: variables are used after
+   their declaration and declared at the top level (wf_stmts), there are enough distinct, non-empty names, every
+   expression fits the VM's 1024 operand slots (the bound is real: deeper operand nesting overflows the
+   implementation's stack as well), the VM has a global slot for every variable, and the program ends
+   (run_stmts returns with some fuel n; both machines are then given at least that much).
    compile_program, VM.run and Sem.run are the very functions that are extracted and compared with the real compiler
    and VM on every run. *)
-Require Import RV.proofs.EndToEndVars.
-Theorem C01_var_programs : forall names, NoDup names -> Forall (fun nm => nm <> nil) names -> forall l,
-  l <> nil -> wf_stmts 0 l = true -> (ndecls l <= List.length names)%nat -> (max_need l <= MAXSTACK)%nat ->
+Theorem C01_var_programs : forall names, NoDup names -> Forall (fun nm => nm <> nil) names -> forall l n r,
+  l <> nil -> wf_stmts true 0 l = true -> (ndecls l <= List.length names)%nat -> (max_need l <= MAXSTACK)%nat ->
+  run_stmts n nil l ScalarFrag.VNil = Some r ->
   exists c tabs, compile_program (S (max_height l)) nil (embed_stmts names 0 l) = inr (c, tabs) /\
-  forall ng, (ndecls l <= ng)%nat -> exists n, forall f fs, (max_height l < fs)%nat ->
-    agree (fst (Sem.run fs (embed_stmts names 0 l))) (VM.run (n + S f) c tabs ng nil).
+  forall ng, (ndecls l <= ng)%nat -> exists k, forall f fs, (max_height l < fs)%nat -> (n < fs)%nat ->
+    agree_on (top_result r) (fst (Sem.run fs (embed_stmts names 0 l))) (VM.run (k + S f) c tabs ng nil).
 Proof. exact var_programs_end_to_end. Qed.
 
 (* Non-vacuity: a := 7; b := a * 2; if b > 10 { a = b - 15; a } else { b = 0 }; a < 0 ? 1 / a : b     (= -1) *)
 Definition ex_names : list (list N) := ((97 :: nil) :: (98 :: nil) :: nil)%N.
 Definition ex_prog : list stmt :=
   (SDecl (SInt 7) :: SDecl (SBin BMul (SVar 0) (SInt 2)) ::
-   SIf (SBin CGt (SVar 1) (SInt 10)) (MSet 0 (SBin BSub (SVar 1) (SInt 15)) :: MExpr (SVar 0) :: nil) (MSet 1 (SInt 0) :: nil) ::
+   SIf (SBin CGt (SVar 1) (SInt 10)) (SSet 0 (SBin BSub (SVar 1) (SInt 15)) :: SExpr (SVar 0) :: nil) (SSet 1 (SInt 0) :: nil) ::
    SExpr (STern (SBin CLt (SVar 0) (SInt 0)) (SBin BDiv (SInt 1) (SVar 0)) (SVar 1)) :: nil)%list.
 Example C01_var_program_example :
-  wf_stmts 0 ex_prog = true /\ ndecls ex_prog = 2%nat /\ run_stmts nil ex_prog ScalarFrag.VNil = inl (ScalarFrag.VInt (-1)) /\
+  wf_stmts true 0 ex_prog = true /\ ndecls ex_prog = 2%nat /\
+  option_map top_result (run_stmts 3 nil ex_prog ScalarFrag.VNil) = Some (inl (ScalarFrag.VInt (-1))) /\
   match compile_program 10 nil (embed_stmts ex_names 0 ex_prog) with
   | inr (c, tabs) => match VM.run 200 c tabs 2 nil with RVal (VM.VInt z) _ => z = (-1)%Z | _ => False end
   | inl _ => False
   end /\ fst (Sem.run 10 (embed_stmts ex_names 0 ex_prog)) = Sem.OVal (Sem.VInt (-1)).
+Proof.
+  split; [vm_compute; reflexivity|]. split; [vm_compute; reflexivity|]. split; [vm_compute; reflexivity|].
+  split; vm_compute; reflexivity.
+Qed.
+
+(* ... with strings: s := "ab"; t := s + "c"; if t > s { s = t + t } else { s = "" }; s == "abcabc" ? t : 0   (= "abc") *)
+Definition ex_sprog : list stmt :=
+  (SDecl (SStr (97 :: 98 :: nil)%N) :: SDecl (SBin BAdd (SVar 0) (SStr (99 :: nil)%N)) ::
+   SIf (SBin CGt (SVar 1) (SVar 0)) (SSet 0 (SBin BAdd (SVar 1) (SVar 1)) :: nil) (SSet 0 (SStr nil) :: nil) ::
+   SExpr (STern (SBin CEq (SVar 0) (SStr (97 :: 98 :: 99 :: 97 :: 98 :: 99 :: nil)%N)) (SVar 1) (SInt 0)) :: nil)%list.
+Example C01_var_program_string_example :
+  wf_stmts true 0 ex_sprog = true /\
+  option_map top_result (run_stmts 3 nil ex_sprog ScalarFrag.VNil) = Some (inl (ScalarFrag.VStr (97 :: 98 :: 99 :: nil)%N)) /\
+  match compile_program 10 nil (embed_stmts ex_names 0 ex_sprog) with
+  | inr (c, tabs) => match VM.run 200 c tabs 2 nil with RVal (VM.VStr z) _ => z = (97 :: 98 :: 99 :: nil)%N | _ => False end
+  | inl _ => False
+  end /\ fst (Sem.run 10 (embed_stmts ex_names 0 ex_sprog)) = Sem.OVal (Sem.VStr (97 :: 98 :: 99 :: nil)%N).
+Proof.
+  split; [vm_compute; reflexivity|]. split; [vm_compute; reflexivity|].
+  split; vm_compute; reflexivity.
+Qed.
+
+(* ... and with loops and nesting:
+     a := 0; b := 0
+     for a < 3 { a = a + 1; if a == 2 { b = b + 10; for false { } } else { b = b + 1; b }; a }
+     b                                                                                         (= 12)
+   ends with fuel 6 but not with fuel 4 *)
+Definition ex_lprog : list stmt :=
+  (SDecl (SInt 0) :: SDecl (SInt 0) ::
+   SWhile (SBin CLt (SVar 0) (SInt 3))
+     (SSet 0 (SBin BAdd (SVar 0) (SInt 1)) ::
+      SIf (SBin CEq (SVar 0) (SInt 2)) (SSet 1 (SBin BAdd (SVar 1) (SInt 10)) :: SWhile (SBool false) nil :: nil)
+                                       (SSet 1 (SBin BAdd (SVar 1) (SInt 1)) :: SExpr (SVar 1) :: nil) ::
+      SExpr (SVar 0) :: nil) ::
+   SExpr (SVar 1) :: nil)%list.
+Example C01_var_program_loop_example :
+  wf_stmts true 0 ex_lprog = true /\
+  option_map top_result (run_stmts 6 nil ex_lprog ScalarFrag.VNil) = Some (inl (ScalarFrag.VInt 12)) /\
+  run_stmts 4 nil ex_lprog ScalarFrag.VNil = None /\
+  match compile_program 10 nil (embed_stmts ex_names 0 ex_lprog) with
+  | inr (c, tabs) => match VM.run 500 c tabs 2 nil with RVal (VM.VInt z) _ => z = 12%Z | _ => False end
+  | inl _ => False
+  end /\ fst (Sem.run 10 (embed_stmts ex_names 0 ex_lprog)) = Sem.OVal (Sem.VInt 12).
 Proof.
   split; [vm_compute; reflexivity|]. split; [vm_compute; reflexivity|]. split; [vm_compute; reflexivity|].
   split; vm_compute; reflexivity.
